@@ -513,6 +513,11 @@ func main() {
 	if len(os.Args) < 3 {
 		fail("usage: vextract <repo> <leandir>")
 	}
+	pins := false
+	if os.Args[1] == "-pins" {
+		pins = true
+		os.Args = append(os.Args[:1], os.Args[2:]...)
+	}
 	repo, leandir := os.Args[1], os.Args[2]
 	_ = os.MkdirAll(filepath.Join(leandir, "VGen"), 0o755)
 	specp := load(filepath.Join(repo, "spec"))
@@ -550,6 +555,10 @@ func main() {
 	}
 	sort.Strings(names)
 	pk := &Pkgs{Root: root, Spec: specp, Fclient: fcl, Tokens: tok, Repo: repo}
+	if pins {
+		writePins(pk, leandir)
+		return
+	}
 	for _, n := range names {
 		w.Reset()
 		emitters[n](pk, &w)
